@@ -47,7 +47,7 @@ PROPS = {
    'request_run_never_panics', 'step_log_step', 'step_crash_log_step', 'swap_cut_signatures_imply_spent', 'swap_ordered', 'mint_ordered', 'melt_ordered',
    'crash_in_settle_inflates', 'crash_in_swap_strands', 'crash_in_mint_strands', 'crash_in_rotate_bricks']),
  'C09': ("Keyset lifecycle: deterministic keys, one active keyset, old ecash stays valid", [
-   'one_active_keyset', 'keysets_never_lost', 'reconf_keeps_keysets', 'arun_as_history', 'admin_rotate_is_rotate', 'admin_rotate_bad_fee', 'admin_readonly', 'cut_keeps_keysets', 'rotate_spec', 'load_spec',
+   'one_active_keyset', 'keysets_never_lost', 'reconf_keeps_keysets', 'arun_as_history', 'admin_rotate_is_rotate', 'admin_rotate_bad_fee', 'admin_readonly', 'cut_keeps_keysets', 'rotate_spec', 'rotate_fee_must_fit', 'load_spec',
    'swap_signs_active_only', 'check_outputs_active', 'tx_fees_per_keyset', 'tx_fees_wrapping_refuted']),
  'C15': ("State check and restore tell the truth about everything the mint ever did", [
    'check_state_general', 'check_state_exact', 'signatures_are_exactly_what_was_returned', 'restore_is_exact', 'restore_exact',
